@@ -7,6 +7,7 @@
 mod alloc;
 mod attack;
 mod control;
+mod disthdr;
 mod edges;
 mod etf;
 mod frag;
@@ -32,6 +33,8 @@ fn main() {
         "attack-run" => attack::run(rest),
         "order-obs" => order::run(rest),
         "control-obs" => control::run(rest),
+        "dh-encode" => disthdr::run_encode(rest),
+        "dh-edges" => disthdr::run_edges(rest),
         other => {
             eprintln!("unknown subcommand {other}");
             2
